@@ -258,7 +258,7 @@ func (g *dg) tImport() []gen.Stmt {
 	return out
 }
 
-var shadowable = []string{"typeName", "isInt", "chars", "contains", "repeat"}
+var shadowable = []string{"typeName", "isInt", "chars", "contains", "repeat", "len", "int", "string", "bool"}
 
 // tShadow: a builtin name declared in one fragment keeps that meaning later.
 func (g *dg) tShadow() []gen.Stmt {
@@ -288,7 +288,17 @@ func (g *dg) tShadow() []gen.Stmt {
 		out = append(out, def(r, calln(name, g.k("sh-arg"))))
 		out = append(out, def(h, fn(nil, ret(calln(name, sl("q"))))))
 	} else {
-		out = append(out, def(r, bin("+", id(name), il(1))))
+		// uses the optimizer would fold if it took the name for the builtin again
+		switch g.u(4, "sh-use") {
+		case 0:
+			out = append(out, def(r, bin("+", id(name), il(1))))
+		case 1:
+			out = append(out, def(r, bin("==", id(name), g.k("sh-k2"))))
+		case 2:
+			out = append(out, def(r, arr(id(name), &gen.Unary{Op: "-", X: id(name)})))
+		default:
+			out = append(out, def(r, &gen.Cond{C: bin(">", id(name), il(4)), A: sl("big"), B: sl("small")}))
+		}
 		out = append(out, def(h, fn(nil, ret(bin("*", id(name), il(2))))))
 	}
 	out = append(out, es(arr(id(r), calln(h))))
